@@ -44,6 +44,14 @@ CHECKS = {
    technique="runtime monitor: exact big.Int quantisation oracle over generated (value, dp, mode) workloads, with idempotence and package-vs-method observers",
    text="Round (6 modes), Ceil, Floor and the package Round/Trunc/Ceil/Floor are observed with dp aligned to every digit position of the operand, half patterns over several dropped digits, carries, dp in -7000..7000 at both exponent ends (quantum above 1e6111), int extremes, zeros and specials; each result is judged against the exact quantisation (incl. the pinned below-a-tenth-of-the-quantum rule), sign, Inf only beyond MaxFinite, and re-application must be a fixed point. Exploration.",
    ref="DESIGN.md §5 C08"),
+ "C09": dict(
+   technique="runtime monitor: exact big.Rat oracle of the binary value, adjacency decided with Nextafter on exact rationals, correctly rounded big.Float reference, round-trip observer",
+   text="FromFloat64/FromFloat32 are observed on float bit patterns of every class (uniform, subnormal, powers of two at every exponent, 53-bit integers x 2^k, extremes) and judged against the exact rational rounded nearest-even, plus the Float64/Float32 round trip; Float64/Float32 on decimals with exponents -400..330, midpoints between adjacent floats, range ends, judged for adjacency (error below one binary ulp, exact when representable); Float for precisions 0..300 and FromFloat for big.Floats up to 25000-bit exponents against their stated bounds. Exploration.",
+   ref="DESIGN.md §5 C09"),
+ "C10": dict(
+   technique="runtime monitor: big.Int/big.Rat reference (truncation, saturation table, exact rounding) over generated boundary workloads",
+   text="Int64/Int32/Uint64/Uint32, Int, Rat are observed on decimals at every type bound +/-1 with fractions and cohort variants, fractions in (-1,1), huge exponents, specials; FromInt64/32/Uint64/32 on machine integers; FromInt on big.Ints up to 20000 bits (ties at the 34/35-digit cut, nine-runs, around MaxFinite) and FromRat on rationals with small, terminating, huge and out-of-range terms, under each DefaultRoundingMode; FromRat(d.Rat()) must be value-equal to d. Exploration.",
+   ref="DESIGN.md §5 C10"),
 }
 
 PENDING = "monitor for this property is not built yet in this revision (work in progress; see DESIGN.md §5 for the planned monitor)"
